@@ -10,6 +10,7 @@ package pfcpiface
 
 import (
 	"context"
+	"math/big"
 	"net"
 	"net/http"
 	"sync"
@@ -95,7 +96,15 @@ func gfield(field string, entry int) uint64 { panic("ghost builtin") }
 func gfieldS(field string, entry int) string { panic("ghost builtin") }
 
 // mulGE(a, ka, b, c, kbc): a*ka >= b*c*kbc over the mathematical integers.
-func mulGE(a, ka, b, c, kbc uint64) bool { panic("ghost builtin") }
+// (The generator has its own encoding of it; the body is there so that a replayed counterexample
+// can evaluate a clause that uses it.)
+func mulGE(a, ka, b, c, kbc uint64) bool {
+	n := func(v uint64) *big.Int { return new(big.Int).SetUint64(v) }
+	l := new(big.Int).Mul(n(a), n(ka))
+	r := new(big.Int).Mul(new(big.Int).Mul(n(b), n(c)), n(kbc))
+
+	return l.Cmp(r) >= 0
+}
 
 // refOf is the identity of the object a pointer refers to (0 for nil).
 func refOf[T any](p *T) int { panic("ghost builtin") }
